@@ -282,7 +282,11 @@ def grammar_job(args):
                 cnt, mism = run.validate_native(h, results, sample=sample, seed=opts.get('seed', 0) + n)
                 out['validated'] += cnt
                 for r, d in mism: out['mismatches'].append(f'{g.name} {entry} {[h.tokens[k] for k in r.witness]} script={r.script}: {d[:300]}')
+                kept = {}
                 for v in viol:
+                    k = (v.prop, v.kind)
+                    kept[k] = kept.get(k, 0) + 1
+                    if kept[k] > 3: out['suppressed_duplicates'] = out.get('suppressed_duplicates', 0) + 1; continue
                     v.confirmed = confirm(h, g, v)
                     out['violations'].append(v.asdict())
                 if results and len(out['samples']) < 3:
@@ -308,7 +312,7 @@ def native_walk_leaves(w, out):
 def confirm(h, g, v):
     """the model's concrete input is run on the natively built real parser and the property is re-evaluated on its output"""
     toks = [h.tokens[k] for k in v.witness]
-    tmo = 10 if v.kind in ('lasso', 'recursion', 'budget') else 30
+    tmo = 5 if v.kind in ('lasso', 'recursion', 'budget') else 30
     o = harness.run_native(h, [(v.entry, toks, v.script)], timeout=tmo)[0]
     v.native = o if len(json.dumps(o)) < 3000 else {'truncated': True}
     if v.prop == 'C08':
